@@ -74,8 +74,8 @@ def judge_formulas(obs_seq, model_seq, scr, tofu, h):
     return bad
 
 
-def main(pid):
-    rep = evidence.Report(pid, "model_checking")
+def main(pid, rep=None, finish=True):
+    rep = rep or evidence.Report(pid, "model_checking")
     thorough = rep.tier == "thorough"
     rnd = random.Random(rep.seed * 48271 + 11)
     own = OWN[pid]
@@ -202,7 +202,9 @@ def main(pid):
         rep.assume("create_connection is served by a fake transport obeying the asyncio contract; TLS itself is exercised by the live checks")
         rep.assume("the pin store is a real SQLite file; certificates are supplied as DER through the transport's ssl_object")
         rep.set("exhaustive", False)
-        sys.exit(rep.finish())
+        if finish:
+            sys.exit(rep.finish())
+        return
     except tlc.TLCError as e:
         evidence.machinery_failure(pid, e)
     finally:
